@@ -19,7 +19,6 @@ package main
 import (
 	"os"
 	"regexp"
-	"strings"
 
 	plugin_go "github.com/gogo/protobuf/protoc-gen-gogo/plugin"
 	"github.com/gogo/protobuf/vanity/command"
@@ -126,12 +125,12 @@ func prependLicense(p *Plugin, s string) (string, error) {
 
 // replacePackageName replaces package name in target file with provided from cli
 func replacePackageName(s string, target string) string {
-	// Replace one string
-	pkg := packageReplacementRegexp.FindString(s)
-	if pkg == "" {
+	// Replace the package clause where it stands: the same words may end an earlier line (a comment)
+	loc := packageReplacementRegexp.FindStringIndex(s)
+	if loc == nil {
 		log.Warning("Package directive not found in target file, can't replace package name, skipping")
 		return s
 	}
 
-	return strings.Replace(s, pkg, "package "+target+"\n", 1)
+	return s[:loc[0]] + "package " + target + "\n" + s[loc[1]:]
 }
